@@ -163,6 +163,8 @@ class Client:
     server = NET.servers.get(addr)
     alive = (server is not None and server._started
              and addr not in NET.dead)
+    if method == 'heartbeat' and args and args[0] in NET.dead:
+      alive = False      # a dead server pushes no heartbeats any more
     if not alive or answer == DEADLINE_BEFORE:
       self._expire(fut, timeout, f'{method} to {addr}: no answer')
       return fut
